@@ -134,6 +134,11 @@ def fieldNames : List Bytes → List Bytes
   | f :: _ :: rest => f :: fieldNames rest
   | _ => []
 
+/-- even-position elements (members of `ZADD k score member score member …`) -/
+def oddPos : List Bytes → List Bytes
+  | _ :: m :: rest => m :: oddPos rest
+  | _ => []
+
 def addMembers (old new : List Bytes) : List Bytes := old ++ new.filter (fun m => !old.contains m)
 
 /-- remove members from a collection key; no-op (nothing propagated) when the
@@ -235,8 +240,8 @@ def propagate (cfg : RedisCfg) (now : Nat) (st : Store) (c : Cmd) : Store × Lis
     match c.args with
     | k :: sm =>
       let (st1, pre) := lazyExpire cfg now st k
-      -- members are the even positions of `score member …`; always counted as a change
-      match touchKind st1 .zset k (fieldNames (sm.drop 1)) with
+      -- always counted as a change (a repeated score is not told apart)
+      match touchKind st1 .zset k (oddPos sm) with
       | none => (st1, pre)
       | some st2 => (st2, pre ++ [c])
     | _ => (st, [])
